@@ -274,6 +274,18 @@ class Ctx:
                 out = p.stdout.decode(errors="replace")
         except subprocess.TimeoutExpired:
             raise NoVerdict("harness timed out after %ds: %s" % (timeout, " ".join(cmd[:3])))
+        if p.returncode == 7 and "STALL:" in p.stderr.decode(errors="replace"):
+            # the harness' watchdog: an operation of the real code did not return for 60 s
+            err = p.stderr.decode(errors="replace")
+            hist = err.rsplit("history=", 1)[-1].strip().splitlines()[0] if "history=" in err else "?"
+            main_g = err.split("goroutine 1 ", 1)[-1].split("\n\n", 1)[0]
+            frames = re.findall(r"anndb/(?:index|storage|utils)\.\(\*?(\w+)\)\.(\w+)", main_g)
+            if frames and self.pid == "C02":
+                short = ",".join({"insert": "ins", "remove": "rem", "update": "upd"}.get(x, x) for x in hist.split(","))
+                self.finding("Outcome_hang@" + short, "Outcome_hang: after %s the real index does not return from %s (60 s): %s"
+                             % (hist, hist.split(",")[-1], "<".join("%s.%s" % f for f in frames[:4])), {"history": hist.split(","), "frames": frames[:8]})
+            raise NoVerdict("the real code does not return from an operation (history %s, frames %s)%s" % (
+                hist, "<".join("%s.%s" % f for f in frames[:3]), "" if self.pid == "C02" else "; decided by C02 (Outcome_hang)"))
         if p.returncode not in ok_codes:
             raise NoVerdict("harness exit %d: %s\n%s" % (p.returncode, " ".join(cmd[:3]),
                                                           p.stderr.decode(errors="replace")[-3000:]))
